@@ -31,26 +31,36 @@ VARIABLES tid,      \* which trace
           i,        \* events consumed
           bad,      \* failing <<step, clause>> pairs
           frozen,   \* file name -> digest at the time it became committed
-          cview     \* the tree at the last commit
+          cview,    \* the tree at the last commit
+          pa        \* patch-aware bookkeeping of H5Tree: [fresh, touched, patching]
 
-vars == <<tid, i, bad, frozen, cview>>
+vars == <<tid, i, bad, frozen, cview, pa>>
 
 SeqToSet(s) == {s[j] : j \in DOMAIN s}
 TreeOf(view) == SeqToSet(view)
 RawFiles(raw) == [j \in DOMAIN raw |-> SeqToSet(raw[j])]
 
 UserOps == {"create_group", "set_dataset", "delete", "set_attr", "del_attr",
-            "copy", "move", "require_group", "copyx", "require_dataset"}
+            "copy", "move", "require_group", "copyx", "require_dataset",
+            "set_elem", "copy_into_patch"}
+(* the outcome the specification expects: as on the single tree; on the IH5     *)
+(* drivers the patch-aware operations additionally need PatchAllows (h5py has   *)
+(* no copy_into_patch at all)                                                   *)
+Expected(e, pre, P) ==
+    LET R == H5!Apply(pre, e) IN
+    IF e.drv = "h5" THEN R.ok /\ e.op # "copy_into_patch"
+    ELSE R.ok /\ H5!PatchAllows(e, P.fresh, P.touched)
 (* actions of the record protocol that must not change the visible tree     *)
 StutterOps == {"commit", "create_patch", "reopen", "observe", "merge", "flush"}
 (* after these (when successful) every file of the record is committed      *)
 CommitOps == {"commit", "reopen"}
 
-Clauses(T, j, fr, cv) ==
+Clauses(T, j, fr, cv, P) ==
     LET e    == T[j]
         pre  == TreeOf(T[j - 1].view)
         post == TreeOf(e.view)
-        R    == H5!Apply(pre, e)
+        exp  == Expected(e, pre, P)
+        R    == [ok |-> exp, t |-> IF exp THEN H5!Apply(pre, e).t ELSE pre]
     IN
     (IF e.timeout THEN {"operation_terminates"} ELSE {})
     \cup (IF e.viewerr # "" THEN {"view_readable"} ELSE {})
@@ -81,11 +91,23 @@ Init ==
     /\ bad = {}
     /\ frozen = <<>>
     /\ cview = TreeOf(Traces[tid][1].view)
+    /\ pa = [fresh |-> {}, touched |-> {}, patching |-> FALSE]
 
 Step ==
     /\ i < Len(Traces[tid])
     /\ LET T == Traces[tid] e == T[i + 1] IN
-       /\ bad' = bad \cup {<<i + 1, c>> : c \in Clauses(T, i + 1, frozen, cview)}
+       /\ bad' = bad \cup {<<i + 1, c>> : c \in Clauses(T, i + 1, frozen, cview, pa)}
+       /\ pa' = IF e.drv = "h5" \/ e.timeout THEN pa
+                ELSE IF e.op \in {"create_patch", "reopen", "discard"} /\ e.ok
+                THEN [fresh |-> {}, touched |-> {}, patching |-> TRUE]
+                ELSE IF e.op = "truncate" THEN [fresh |-> {}, touched |-> {}, patching |-> FALSE]
+                ELSE IF e.op \notin UserOps THEN pa
+                ELSE LET pre == TreeOf(T[i].view) post == TreeOf(e.view) IN
+                     \* the bookkeeping follows what the implementation did (e.ok): a wrong outcome is
+                     \* reported once by ok_matches_reference and does not cascade
+                     [fresh |-> H5!NextFresh(pa.fresh, e, e.ok, pre, post),
+                      touched |-> H5!NextTouched(pa.touched, pa.fresh, e, e.ok, pre, pa.patching),
+                      patching |-> pa.patching]
        /\ frozen' = IF e.op = "commit" /\ e.ok THEN e.disk
                     ELSE IF e.op = "reopen" /\ e.ok THEN e.cdisk
                     ELSE IF e.op = "truncate" THEN <<>> ELSE frozen
@@ -97,7 +119,7 @@ Done ==
     /\ i = Len(Traces[tid])
     /\ TLCSet(tid, bad)
     /\ i' = i + 1
-    /\ UNCHANGED <<tid, bad, frozen, cview>>
+    /\ UNCHANGED <<tid, bad, frozen, cview, pa>>
 
 TraceSpec == Init /\ [][Step \/ Done]_vars
 
